@@ -1,7 +1,7 @@
 \* exhaustive: all cells within 14 rings x both orientations x k in -13..13 and large k of both signs
-CONSTANTS N = 14  K = 13  BigK = {36, 601, 100003, 7000001}  MaxLevel = 4
+CONSTANTS N = 14  K = 13  BigK = {36, 601, 100003, 7000001}  MaxLevel = 2
 INIT Init
-NEXT Next
+NEXT NextB
 CONSTRAINT Bound
 INVARIANT TypeOK
 INVARIANT GeoRotExact
